@@ -114,17 +114,22 @@ not written the file yet, two sequences of `export_to` calls whose generated tex
 its OWN spelling of the path (relative, absolute, `./`, `..` segments: anything `path::absolute` normalises to `path`) — both return
 `Ok` at every step and end in the SAME file system byte for byte. The first call creates the missing parent directories
 (`create_dir_all`, result `fsD`); later calls find them (`create_dir_all` is then the identity, also after the file exists:
-`Fs.createDirAll_idem`). The only thing assumed about the target is that a file can be created there once its parents exist
-(it is not a directory). -/
+`Fs.createDirAll_idem`). The only thing assumed about the target is that it is not a directory (`hfile`): once `create_dir_all` has
+run, the normal form `/n₁/../nₖ/name` resolves to `[n₁, .., nₖ, name]` below an existing directory and `File::create` succeeds
+(`exportTo_target_creatable`, from `absolute_shape`). -/
 theorem C06_export_to_histories (w : World) (path par : Str) (fsD : Fs) (s₁ s₂ : List (Str × GenT))
     (hperm : (s₁.map (·.2)).Perm (s₂.map (·.2))) (hne : s₁ ≠ [])
     (habs₁ : ∀ s ∈ s₁, Path.absolute (cwdStr w.fs) s.1 = .ok path) (habs₂ : ∀ s ∈ s₂, Path.absolute (cwdStr w.fs) s.1 = .ok path)
     (hpar : Path.parent path = some par) (hd : w.fs.createDirAll par = some fsD)
     (hok : ∀ x ∈ s₁.map (·.2), GenOK x) (hnd : ((s₁.map (·.2)).map (·.name)).Nodup) (hndI : ((s₁.map (·.2)).map (·.ident)).Nodup)
     (hp : w.poisoned = false) (hreg : regGet w.reg (regKey path) = none)
-    (hc : ∃ text, (fsD.fileCreate path text).isSome) :
-    ∃ w₁ w₂, runAllTo w s₁ = (w₁, true) ∧ runAllTo w s₂ = (w₂, true) ∧ w₁.fs = w₂.fs :=
-  historyTo_order_independent w path par fsD s₁ s₂ hperm hne habs₁ habs₂ hpar hd hok hnd hndI hp hreg hc
+    (hfile : ∀ loc, fsD.resolve path = some loc → fsD.lookup loc ≠ some .dir) :
+    ∃ w₁ w₂, runAllTo w s₁ = (w₁, true) ∧ runAllTo w s₂ = (w₂, true) ∧ w₁.fs = w₂.fs := by
+  cases s₁ with
+  | nil => exact absurd rfl hne
+  | cons a as =>
+    have hc := exportTo_target_creatable w a.1 path par fsD [] (habs₁ a (by simp)) hpar hd hfile
+    exact historyTo_order_independent w path par fsD (a :: as) s₂ hperm hne habs₁ habs₂ hpar hd hok hnd hndI hp hreg ⟨[], hc⟩
 
 /-- … and what that file system is: the directories `create_dir_all` made, plus exactly the canonical file of the exported texts -/
 theorem C06_export_to_history_canonical (w : World) (path par : Str) (fsD : Fs) (p0 : Str) (g : GenT) (rest : List (Str × GenT))
@@ -133,9 +138,10 @@ theorem C06_export_to_history_canonical (w : World) (path par : Str) (fsD : Fs) 
     (hok : ∀ x ∈ g :: rest.map (·.2), GenOK x) (hnd : ((g :: rest.map (·.2)).map (·.name)).Nodup)
     (hndI : ((g :: rest.map (·.2)).map (·.ident)).Nodup)
     (hp : w.poisoned = false) (hreg : regGet w.reg (regKey path) = none)
-    (hc : (fsD.fileCreate path (genText g)).isSome) :
+    (hfile : ∀ loc, fsD.resolve path = some loc → fsD.lookup loc ≠ some .dir) :
     ∃ w' loc, runAllTo w ((p0, g) :: rest) = (w', true) ∧ fsD.resolve path = some loc ∧
       w'.fs = fsD.set loc (.file (fileText (canonSt (g :: rest.map (·.2))))) := by
+  have hc := exportTo_target_creatable w p0 path par fsD (genText g) (habs (p0, g) (by simp)) hpar hd hfile
   obtain ⟨w', loc, h, _, _, hr, _, hfs, _⟩ := historyTo_canonical w path par fsD p0 g rest habs hpar hd hok hnd hndI hp hreg hc
   exact ⟨w', loc, h, hr, hfs⟩
 
